@@ -13,6 +13,12 @@ fn repeat_cmd(args: &[String]) -> i32 {
     let in_thread: usize = args.get(1).and_then(|s| s.parse().ok()).unwrap_or(3);
     let fresh: usize = args.get(2).and_then(|s| s.parse().ok()).unwrap_or(8);
     xsgv::subject::silence_panics();
+    // `repeat ... noise-first`: this process does unrelated work (other options, other documents)
+    // before the first case, so that process-wide state set by "the first call" differs between
+    // the two helper processes
+    if args.get(3).map(|s| s.as_str()) == Some("noise-first") {
+        xsgv::subject::noise();
+    }
     let stdin = std::io::stdin();
     let stdout = std::io::stdout();
     let mut out = std::io::BufWriter::new(stdout.lock());
